@@ -315,9 +315,11 @@ def strat_views(tier):
   return s()
 
 
+_FUZZ_MODS = ('ml_metrics._src.chainables.tree',)
+
 SCENARIOS = [
     Scenario('laws', run_laws, strategy=strat_laws, budget={'quick': 3000, 'thorough': 60000},
-             shards={'quick': 8, 'thorough': 16}),
+             shards={'quick': 8, 'thorough': 16}, fuzz_runs={'quick': 1200, 'thorough': 150000}, instrument=_FUZZ_MODS),
     Scenario('views', run_views, strategy=strat_views, budget={'quick': 2000, 'thorough': 40000},
-             shards={'quick': 8, 'thorough': 16}),
+             shards={'quick': 8, 'thorough': 16}, fuzz_runs={'quick': 1200, 'thorough': 150000}, instrument=_FUZZ_MODS),
 ]
